@@ -5,8 +5,11 @@
 mod campaign;
 mod cfg;
 mod e1;
+mod e2;
+mod trace;
 mod evidence;
 mod model;
+mod panics;
 mod props;
 mod rng;
 mod scenarios;
@@ -56,7 +59,46 @@ fn main() {
         }
         i += 1;
     }
-    // single-driver engines decide when flushes and compactions happen
+    // internal modes
+    match a.prop.as_str() {
+        "e2-worker" => std::process::exit(e2::worker_main(&argv[2..])),
+        "e2-verify" => std::process::exit(e2::verify_main(&argv[2..])),
+        "dbg-open" => {
+            // debug: open a directory with default options, commit a probe, close, reopen
+            let dir = std::path::PathBuf::from(&argv[2]);
+            let cfg = if argv.len() > 3 {
+                cfg::Cfg::from_json(&serde_json::from_slice(&std::fs::read(&argv[3]).unwrap()).unwrap())
+            } else {
+                cfg::Cfg { flush_on_close: false, ..Default::default() }
+            };
+            let rt = tokio::runtime::Builder::new_current_thread().enable_all().build().unwrap();
+            rt.block_on(async {
+                for round in 0..2 {
+                    match cfg.open(&dir) {
+                        Err(e) => {
+                            println!("open {} failed: {}", round, e);
+                            return;
+                        }
+                        Ok(t) => {
+                            println!("open {} ok, visible seq {} layout {:?}", round, t.verif_visible_seq(), t.verif_layout().map(|l| (l.tables.iter().map(|t| (t.level, t.id, t.smallest_seq, t.largest_seq)).collect::<Vec<_>>(), l.log_number, l.last_sequence, l.active_wal)));
+                            if let Ok(m) = e2::scan_all(&t) {
+                                let s: Vec<String> = m.iter().map(|(k, v)| format!("{}={}", model::hex(k), if v.len() >= 8 { u64::from_be_bytes(v[..8].try_into().unwrap()).to_string() } else { format!("l{}", v.len()) })).collect();
+                                println!("  scan: {}", s.join(" "));
+                            }
+                            let mut tx = t.begin().unwrap();
+                            tx.set_durability(surrealkv::Durability::Immediate);
+                            tx.set(&b"probe"[..], &b"x"[..]).unwrap();
+                            println!("commit: {:?}", tx.commit().await.map_err(|e| e.to_string()));
+                            drop(tx);
+                            e2::close_tree(t).await;
+                        }
+                    }
+                }
+            });
+            std::process::exit(0);
+        }
+        _ => {}
+    }
     let code = props::dispatch(&a);
     let _ = std::fs::remove_dir_all(e1::scratch_root());
     std::process::exit(code);
